@@ -31,9 +31,15 @@ pub struct Out {
 }
 
 pub fn run_one(base: Instant, cfg: &PairCfg, wl: Wl, k: u32, mask: u64, fates: &std::collections::BTreeMap<u64, crate::sim::Fate>) -> Out {
+    run_one_at(base, cfg, wl, k, mask, 0, fates)
+}
+
+/// `mask` applies to the datagrams with emission indices `mask_base..mask_base+64`
+pub fn run_one_at(base: Instant, cfg: &PairCfg, wl: Wl, k: u32, mask: u64, mask_base: u64, fates: &std::collections::BTreeMap<u64, crate::sim::Fate>) -> Out {
     let r = guarded(|| {
         let mut p = std_pair_pre(base, cfg, wl, ReadMode::default(), |w| {
             w.drop_mask = mask;
+            w.mask_base = mask_base;
             w.fates = fates.clone();
             w.keep_data = false;
         });
@@ -85,10 +91,11 @@ fn replay(args: &Args, path: &std::path::Path) -> ! {
     let r = &v["replay"];
     let cfgs = cfg_list(true);
     let cfg = cfgs.iter().find(|c| c.client.name == r["cfg"].as_str().unwrap_or("")).unwrap_or_else(|| crate::report::machinery("unknown cfg"));
-    let wl = match r["wl"].as_str().unwrap_or("") { "W1" => Wl::W1, "W2" => Wl::W2, "W3" => Wl::W3, "W6" => Wl::W6, _ => Wl::W1 };
+    let wl = crate::scen::wl_from_str(r["wl"].as_str().unwrap_or("W1"));
     let base = Instant::now();
     let k = r["k"].as_u64().unwrap_or(4) as u32;
     let mask = r["mask"].as_u64().unwrap_or(0);
+    let mask_base = r["mask_base"].as_u64().unwrap_or(0);
     let mut fates = Default::default();
     if let Some(d) = r["devs"].as_array() {
         let devs: Devs = d.iter().map(|x| (x[0].as_u64().unwrap(), x[1].as_u64().unwrap() as u16)).collect();
@@ -96,6 +103,7 @@ fn replay(args: &Args, path: &std::path::Path) -> ! {
     }
     let mut p = std_pair_pre(base, cfg, wl, ReadMode::default(), |w| {
         w.drop_mask = mask;
+        w.mask_base = mask_base;
         w.fates = fates;
     });
     let hz = horizon(k);
@@ -125,7 +133,7 @@ pub fn main(args: &Args) -> ! {
     let all_cfgs = cfg_list(thorough);
     let idle_cfgs: Vec<_> = all_cfgs.iter().filter(|c| c.client.idle_ms.is_some()).cloned().collect();
     let cfgs: Vec<_> = all_cfgs.into_iter().filter(|c| c.client.idle_ms.is_none()).collect();
-    let wls: Vec<Wl> = if thorough { vec![Wl::W1, Wl::W3, Wl::W6, Wl::W2] } else { vec![Wl::W1, Wl::W3, Wl::W6] };
+    let wls: Vec<Wl> = if thorough { vec![Wl::W1, Wl::W3, Wl::W6, Wl::W2, Wl::W11] } else { vec![Wl::W1, Wl::W3, Wl::W6, Wl::W11] };
     let dl = deadline(if thorough { 1500 } else { 45 });
     rep.rule = format!(
         "E3: for each (configuration, workload) every one of the 2^K drop masks over the first K={k} datagrams emitted by either side (network reliable afterwards, idle timeout off) is executed on the real endpoints; E2: all executions with <=2 dup/delay/drop deviations in the first 24 datagrams for a covering sub-list. An execution is non-trivial when its observable trace hash differs from the fault-free baseline of its (cfg, workload); distinct = distinct trace hashes among those."
@@ -189,13 +197,61 @@ pub fn main(args: &Args) -> ! {
     }
     rep.part("drop_masks", json!({"K": k, "configs": cfgs.len(), "workloads": wls.len(), "planned": total, "executed": res.len(), "capped": capped, "max_virtual_time_s": maxv.as_secs_f64()}));
     rep.sample(json!({"cfg": cfgs[0].client.name, "wl":"W1", "dropmask":"0b101", "meaning":"datagrams #0 and #2 (emission order, both directions) dropped, everything else delivered after the link latency"}));
+    // E3b: every drop subset of K datagrams in the middle of the transfer (starting at the first
+    // datagram after the handshake flight), so that losses of data, FIN-only, reset and
+    // acknowledgement packets combine
+    {
+        let km: u32 = if thorough { 12 } else { 10 };
+        let mut tasks = vec![];
+        for name in ["nopace", "default", "gso1"] {
+            let Some(ci) = cfgs.iter().position(|c| c.client.name == name) else { continue };
+            for wl in [Wl::W11, Wl::W2, Wl::W4] {
+                if !thorough && name != "nopace" && wl != Wl::W11 {
+                    continue;
+                }
+                for mask in 0..(1u64 << km) {
+                    tasks.push((ci, wl, mask));
+                }
+            }
+        }
+        let planned = tasks.len();
+        let (res, capped) = e3(tasks, dl, |(ci, wl, mask)| run_one_at(base, &cfgs[*ci], *wl, 6, *mask, 5, &Default::default()));
+        rep.exhaustive &= !capped;
+        let mut basehash: std::collections::BTreeMap<(usize, String), u64> = Default::default();
+        for ((ci, wl, mask), o) in &res {
+            if *mask == 0 {
+                basehash.insert((*ci, format!("{wl:?}")), o.trace);
+            }
+        }
+        for ((ci, wl, mask), o) in &res {
+            rep.evaluations += 1;
+            if Some(&o.trace) != basehash.get(&(*ci, format!("{wl:?}"))) {
+                rep.distinct.insert(o.trace);
+            }
+            if let Some((sig, what)) = o.viol.first() {
+                rep.violation(Violation {
+                    signature: format!("{sig}:{}", cfgs[*ci].client.name),
+                    what: format!("cfg={} wl={wl:?} drop mask {mask:#b} over datagrams #5..: {what}", cfgs[*ci].client.name),
+                    replay: json!({"check":"c02","kind":"mask","cfg":cfgs[*ci].client.name,"wl":format!("{wl:?}"),"k":6,"mask":mask,"mask_base":5}),
+                });
+            }
+        }
+        rep.part("mid_transfer_drop_masks", json!({"K": km, "first_datagram": 5, "planned": planned, "executed": res.len(), "capped": capped}));
+    }
     // E2: dup/delay/drop deviations
-    let e2cfgs: Vec<usize> = if thorough { (0..cfgs.len()).collect() } else { vec![0, 4, 11, 13, 20].into_iter().filter(|i| *i < cfgs.len()).collect() };
+    let mut e2cfgs: Vec<usize> = if thorough { (0..cfgs.len()).collect() } else { vec![0, 4, 11, 13, 20].into_iter().filter(|i| *i < cfgs.len()).collect() };
+    // un-paced sending: what the application writes leaves at once, so later operations (a deferred
+    // finish) travel in packets of their own
+    if let Some(i) = cfgs.iter().position(|c| c.client.name == "nopace") {
+        if !e2cfgs.contains(&i) {
+            e2cfgs.push(i);
+        }
+    }
     let kdev = if thorough { 3 } else { 2 };
     let mut e2execs = 0u64;
     let mut e2capped = false;
     for &ci in &e2cfgs {
-        for &wl in &[Wl::W1, Wl::W3] {
+        for &wl in &[Wl::W1, Wl::W3, Wl::W11] {
             let cfg = &cfgs[ci];
             let r = e2(
                 |d: &Devs| {
